@@ -254,6 +254,9 @@ def run_case(ctx, case):
                 sub = g.isel(**{dim: np.asarray(idx, dtype=int)})
                 sfaces = ux.rows(sub.face_node_connectivity.values)
             except Exception as e:
+                if dim == "n_node" and not any(set(f) & set(int(i) for i in idx) for f in m.faces):
+                    ctx.observe("empty_node_selection_rejected")  # only nodes that no face uses were picked: nothing to select
+                    continue
                 ctx.check("no_exception", False, {"stage": "derived_" + how, "exc": core.exc_sig(e)}, {"exc": repr(e), "mesh": case["mesh"]})
                 continue
             check_grid(ctx, sub, sfaces, int(sub.n_node), (case["order"] + 2) % len(ORDERS), {"supplied": sig["supplied"], "derived": how})
